@@ -36,7 +36,7 @@ pub fn gen_library(r: &mut Rng, with_known_features: bool) -> Vec<(String, Strin
                 if with_known_features {
                     break;
                 }
-                let rd = md::read(&text, &Key::from_file_name(k).parent());
+                let rd = md::read(&text, &crate::oracle::md::dir_of(k));
                 // no note link inside a quote; no multi-line structure that would move a block's first line
                 if rd.links.iter().all(|l| md::is_external(&l.dest) || !l.ctx.iter().any(|c| c.starts_with("quote"))) {
                     break;
@@ -62,7 +62,7 @@ pub fn scan(lib: &[(String, String)], as_implemented: bool) -> BTreeMap<String, 
     }
     for (k, text) in lib {
         let src = Key::from_file_name(k).to_string();
-        let dir = Key::from_file_name(k).parent();
+        let dir = crate::oracle::md::dir_of(k);
         let rd = md::read(text, &dir);
         let mut inline_seen: Vec<(String, usize)> = vec![];
         for l in &rd.links {
@@ -193,7 +193,7 @@ pub fn run(ctx: &Ctx, model: &mut Model, rep: &mut Report) {
             // merged per target must keep the links of both)
             let t = lib[0].0.clone();
             for (j, n) in [1usize, 3].iter().enumerate() {
-                let dir = Key::from_file_name(&lib[j + 1].0).parent();
+                let dir = crate::oracle::md::dir_of(&lib[j + 1].0);
                 let url = md::rel_url(&t, &dir);
                 for _ in 0..*n {
                     lib[j + 1].1.push_str(&format!("\n[fan]({})\n", url));
